@@ -162,8 +162,8 @@ class C01(FamilyCfg):
 
 
 class C02(FamilyCfg):
-    lean = ["Props.C02idx", "Audit.C02idx"]
-    audit = ["C02idx"]
+    lean = ["Props.C02idx", "Audit.C02idx", "Props.C02ref", "Audit.C02ref"]
+    audit = ["C02idx", "C02ref"]
 
     def scripts(self, tier):
         out = []
@@ -221,8 +221,8 @@ def keylists(pool, maxlen):
 
 
 class C03(FamilyCfg):
-    lean = []
-    audit = []
+    lean = ["Props.C03ref", "Audit.C03ref", "Props.C11", "Audit.C11"]
+    audit = ["C03ref", "C11"]
 
     def scripts(self, tier):
         # every key list of length 1..3 over {present set A, present set B, missing, wrong type, destination}
@@ -245,8 +245,8 @@ class C03(FamilyCfg):
 
 
 class C04(FamilyCfg):
-    lean = []
-    audit = []
+    lean = ["Props.C04ref", "Audit.C04ref", "Props.C11", "Audit.C11"]
+    audit = ["C04ref", "C11"]
 
     def scripts(self, tier):
         F = [hx("f1"), hx("f2"), hx("f3")]
@@ -269,8 +269,8 @@ SCORES = ["-inf", "-1p0", "0p0", "1p-1", "1p0", "inf"]
 
 
 class C05(FamilyCfg):
-    lean = ["Props.C02idx", "Audit.C02idx"]
-    audit = ["C02idx"]
+    lean = ["Props.C02idx", "Audit.C02idx", "Props.C05ref", "Audit.C05ref"]
+    audit = ["C02idx", "C05ref"]
 
     def scripts(self, tier):
         mem = [EA, EB, EC, hx("d")]
@@ -340,6 +340,8 @@ class CrossCfg(Cfg):
 
 
 class C06(CrossCfg):
+    lean = ["Props.C06ref", "Audit.C06ref"]
+    audit = ["C06ref"]
     tie = ["SqlFull_rkey", "Facts_rkey", "SqlTypes", "Schema"]
     facts = [r"^sql\.rkey\.", r"^sql\..*\.types$", r"^facts\.rkey\.", r"^wrappers\.rkey\.", r"^schema\.table_", r"^consts\.key_exists"]
     listed = ALL_API_FINDINGS
@@ -389,6 +391,10 @@ class C11(CrossCfg):
     listed = set()
 
     def judge(self, op, v, mode):
+        if "R" in v:      # a refused call with an invalid value type (FAULT kind=invalid)
+            if v.get("I") == "0":
+                return ("violation", "the stored structure is inconsistent after a call refused for its value type")
+            return None
         if v.get("P") == "1" and v.get("I") == "0" and not (set(v["K"]) & self.listed):
             return ("violation", "the stored structure is inconsistent after this step (cached length, ownership or uniqueness), K=" + ",".join(v["K"]))
         if v.get("M") == "0" and (set(v["D"]) & {"len", "fk"}):
@@ -404,9 +410,15 @@ class C12(CrossCfg):
     listed = set()
 
     def counts(self, op, v):
-        return v.get("N") in ("0", "1")
+        return v.get("N") in ("0", "1") or "R" in v
 
     def judge(self, op, v, mode):
+        if "R" in v:      # a call with an invalid value type must be refused and leave no trace
+            if v.get("A") == "0":
+                return ("violation", "a call refused for its value type changed the tables")
+            if v.get("R") == "0":
+                return ("violation", "a value of an unsupported type was accepted")
+            return None
         if v.get("N") == "0" and not (set(v["K"]) & self.listed):
             return ("violation", "a read / refused / nothing-to-do operation changed the tables, K=" + ",".join(v["K"]))
         return None
@@ -418,11 +430,13 @@ class C19(CrossCfg):
     listed = set()
 
     def counts(self, op, v):
-        return v.get("V") in ("0", "1")
+        return v.get("V") in ("0", "1") or v.get("T") in ("0", "1")
 
     def judge(self, op, v, mode):
         if v.get("V") == "0":
             return ("violation", "key metadata rule broken (version not increased / mtime not refreshed / went backwards)")
+        if v.get("T") == "0" and not (set(v["K"]) & ALL_API_FINDINGS):
+            return ("violation", "the type or expiry reported by the key lookup is not what the operation established")
         if v.get("M") == "0" and (set(v["D"]) & {"version", "mtime"}) and v.get("V") != "0":
             return ("corr", "model and implementation disagree on version/mtime (D=" + ",".join(v["D"]) + ")")
         return None
@@ -437,11 +451,37 @@ class C17(Cfg):
     rule = ("random traces in which every key, field, member, element and value is drawn from a hostile pool (empty, NUL, CR/LF, invalid "
             "UTF-8, metacharacters, digit strings) with p=0.6..1.0, string and []byte argument forms; each step judged against model and spec")
 
+    needs_wire = True
+
     def streams(self, tier, seed, search):
         n, t, l = scale(tier, search)
-        return [api(seed * 1000 + 300 + i, t, l, "str,list,set,hash,zset,key", ["db", "tx"][i % 2], [0.6, 1.0, 0.8][i % 3]) for i in range(n)]
+        out = [api(seed * 1000 + 300 + i, t, l, "str,list,set,hash,zset,key", ["db", "tx"][i % 2], [0.6, 1.0, 0.8][i % 3]) for i in range(n)]
+        # the same byte strings over the wire, in every role, read back through every command that returns names or values
+        def q(b):
+            return '"' + "".join("\\x%02x" % c for c in b) + '"'
+        hostile = [b"", b"\x00", b"\r\n", b"a\r\nb", b"\n", b"\xff\xfe", b"*", b"[a]", b"12", b"-0", b"a b", b"\x00\x00", b"k\x00x",
+                   bytes(range(0, 32)), bytes(range(128, 160)), b"x" * 300]
+        script = ""
+        for i, h in enumerate(hostile):
+            o = hostile[(i + 1) % len(hostile)]
+            script += "---\n"
+            for line in [f"1 SET {q(h)} {q(o)}", f"1 GET {q(h)}", "1 RANDOMKEY", "1 KEYS *", f"1 EXISTS {q(h)}", f"1 TYPE {q(h)}",
+                         f"1 RENAME {q(h)} {q(b'moved' + h)}", f"1 GET {q(b'moved' + h)}", f"1 DEL {q(b'moved' + h)}",
+                         f"1 RPUSH l {q(h)} {q(o)}", "1 LRANGE l 0 -1", f"1 LINDEX l 0", f"1 LREM l 0 {q(h)}", "1 RPOP l",
+                         f"1 SADD s {q(h)} {q(o)}", "1 SMEMBERS s", f"1 SISMEMBER s {q(h)}", f"1 SREM s {q(o)}", "1 SPOP s",
+                         f"1 HSET h {q(h)} {q(o)}", "1 HGETALL h", "1 HKEYS h", "1 HVALS h", f"1 HGET h {q(h)}", f"1 HEXISTS h {q(h)}",
+                         f"1 ZADD z 1 {q(h)} 2 {q(o)}", "1 ZRANGE z 0 -1", f"1 ZSCORE z {q(h)}", f"1 ZRANK z {q(o)}",
+                         f"1 ECHO {q(h)}", f"1 GETSET g {q(h)}", f"1 GETSET g {q(o)}", f"1 MSET m1 {q(h)} m2 {q(o)}", "1 MGET m1 m2",
+                         f"1 RPOPLPUSH l l2", "1 SCAN 0", "1 HSCAN h 0", "1 SSCAN s 0", "1 ZSCAN z 0"]:
+                script += line + "\n"
+        out.append(dict(kind="wirescript", driver="wiredriver", script=script))
+        return out
 
     def judge(self, op, v, mode):
+        if v.get("_wire") is not None:
+            if v.get("M") == "0":
+                return ("violation", "a byte string was not returned byte-for-byte with the right reply type over the wire (wire model)")
+            return None
         return judge_spec(v, self.listed)
 
 
@@ -507,8 +547,8 @@ class C07(Cfg):
 
 
 class C08(Cfg):
-    lean = []
-    audit = []
+    lean = ["Props.C08", "Audit.C08"]
+    audit = ["C08"]
     tie = ["Consts", "Facts_rstring", "Facts_rkey", "Facts_rlist", "Facts_rset", "Facts_rhash", "Facts_rzset"]
     facts = [r"^wrappers\.", r"^consts\.(setNumConns|rwMaxOpenConns|dataSource|execTx|applySettings)"]
     listed = {"D15"}
@@ -541,8 +581,8 @@ class C08(Cfg):
 
 
 class C09(Cfg):
-    lean = []
-    audit = []
+    lean = ["Props.C09", "Audit.C09"]
+    audit = ["C09"]
     tie = ["Schema", "Consts"]
     facts = [r"^schema\.", r"^consts\.(defaultPragma|open|openRead|close|applySettings|createSchema|dataSource)"]
     listed = set()
@@ -554,7 +594,7 @@ class C09(Cfg):
 
     def streams(self, tier, seed, search):
         n = 16
-        t, l, p = (40, 12, 0) if tier == "thorough" else ((8, 10, 12) if search else (4, 10, 10))
+        t, l, p = (40, 12, 0) if tier == "thorough" else ((6, 10, 0) if search else (4, 10, 10))
         return [dict(kind="crash", args=["-seed", seed * 1000 + 700 + i, "-traces", t, "-len", l, "-points", p]) for i in range(n)]
 
     def counts(self, op, v):
@@ -586,24 +626,270 @@ class C20(CrossCfg):
     def streams(self, tier, seed, search):
         n, t, l = scale(tier, search)
         out = [api(seed * 1000 + 800 + i, t, l, "expire,expire,str,list,set,hash,zset,key", "db", 0.02) for i in range(n)]
+        for nkeys, limit in ((1500, 0), (300, 0), (300, 7)):
+            sc = "--- db\n"
+            for i in range(nkeys):
+                k = hx("x%05d" % i)
+                if i % 3 == 0:
+                    sc += f"!set.Add {k} 2 {EA} {EB}\n"
+                else:
+                    sc += f"!str.Set {k} {EA}\n"
+                if i % 10 != 9:
+                    sc += f"!key.ExpireAt {k} {1000 + i}\n"
+            sc += f"key.DeleteExpired {limit}\nkey.Len\nkey.DeleteExpired 0\nkey.Len\n"
+            out.append(dict(kind="script", script=sc))
         if tier == "thorough":
             out.append(dict(kind="tick", args=["-seed", seed, "-keys", 2000]))
         return out
 
     def counts(self, op, v):
-        return op == "key.DeleteExpired" or "T" in v
+        return op == "key.DeleteExpired" or "TK" in v
 
     def judge(self, op, v, mode):
-        if "T" in v:      # a TICK line of the real-time observation
-            if v.get("T") == "0":
+        if "TK" in v:      # a TICK line of the real-time observation
+            if v.get("TK") == "0":
                 return ("violation", "expired keys were not reclaimed within the period, or live keys were touched, or service failed during the tick")
             return None
         if op == "key.DeleteExpired":
+            if v.get("G") == "0":
+                return ("violation", "expired keys are still stored after the reclamation step the background manager runs (DeleteExpired(0))")
             r = judge_spec(v, self.listed)
             if r:
                 return r
             if v.get("P") == "1" and v.get("I") == "0":
                 return ("violation", "reclamation left the tables structurally inconsistent")
+        return None
+
+
+# ----------------------------------------------------------------------------- wire layer (C13-C15)
+
+def unhex(tok):
+    return bytes.fromhex(tok[1:]) if tok.startswith("x") else b""
+
+
+def wire_fields(line):
+    """(conn, inMulti, nQueued, request args as bytes, reply tokens, pre-dump, post-dump, post-state)"""
+    f = line.split(" | ")
+    if len(f) < 7 or not f[0].endswith(" wire"):
+        return None
+    c = f[2].split()
+    r = f[3].split()
+    args = [unhex(t) for t in r[2:]]
+    return dict(conn=c[0], inMulti=c[1] == "1", nq=int(c[2]), queue=c[2:], args=args, toks=f[4].split(), pre=f[1], post=f[5], post_state=f[6].split())
+
+
+def reply_shape(toks):
+    """Parse the token sequence of one request: returns (complete_values, leftover_or_incomplete, panicked)."""
+    panicked = bool(toks) and toks[-1] == "!PANIC"
+    if panicked:
+        toks = toks[:-1]
+    if toks == ["."]:
+        toks = []
+    i = 0
+    values = 0
+    incomplete = False
+
+    def one():
+        nonlocal i, incomplete
+        if i >= len(toks):
+            incomplete = True
+            return
+        t = toks[i]
+        i += 1
+        if t.startswith("*"):
+            n = int(t[1:])
+            for _ in range(max(n, 0)):
+                one()
+                if incomplete:
+                    return
+    while i < len(toks) and not incomplete:
+        one()
+        if not incomplete:
+            values += 1
+    return values, incomplete, panicked
+
+
+NUMKEYS_CMDS = {b"zinter", b"zunion", b"zinterstore", b"zunionstore"}
+
+
+def wire_known(w):
+    """classifiers of the wire-level known findings, from the request alone"""
+    k = set()
+    if not w["args"]:
+        return k
+    name = w["args"][0].lower()
+    if name in NUMKEYS_CMDS:
+        idx = 2 if name.endswith(b"store") else 1
+        if len(w["args"]) > idx:
+            try:
+                if int(w["args"][idx]) < 0:
+                    k.add("D11")
+            except ValueError:
+                pass
+    if name == b"exec" and w["inMulti"]:
+        k.add("D12?")      # confirmed below only when the reply is short
+    return k
+
+
+def wire_finding_reproduced(f, line):
+    w = wire_fields(line)
+    if not w:
+        return False
+    values, incomplete, panicked = reply_shape(w["toks"])
+    toks = w["toks"]
+    if f["verdict"] == "panic":
+        return panicked
+    if f["verdict"] == "short":
+        return incomplete
+    if f["verdict"] == "syntax":
+        return bool(toks) and toks[0].startswith("-") and b"syntax error" in unhex(toks[0][1:])
+    if f["verdict"] == "ok":
+        return toks == ["+x4f4b"]
+    return False
+
+
+class WireCfg(Cfg):
+    needs_wire = True
+    lean = ["Model.Wire.Server", "Model.Wire.Witness", "WireProto"]
+    tie = ["Grammar", "Dispatch", "Server"]
+    facts = [r"^dispatch", r"^server\.", r"^grammar"]
+    wire_streams = []
+
+    def streams(self, tier, seed, search):
+        mult = 8 if tier == "thorough" else (2 if search else 1)
+        out = []
+        for kind, n, traces, length in self.wire_streams:
+            for i in range(n):
+                args = ["-seed", seed * 1000 + 900 + i, "-traces", traces * mult, "-len", length, "-stream", kind.split(":")[0]]
+                if ":" in kind:
+                    args += kind.split(":")[1].split()
+                    args[1] = i      # exhaustive shards are numbered from 0
+                    args[3] = traces
+                out.append(dict(kind="wire", driver="wiredriver", args=args))
+        return out
+
+    def counts(self, op, v):
+        return True
+
+
+class C13(WireCfg):
+    lean = WireCfg.lean + ["Props.C13", "Audit.C13"]
+    audit = ["C13"]
+    wire_streams = [("valid", 10, 60, 100), ("malformed", 3, 60, 100), ("pool", 3, 20, 200)]
+    listed = {"D13", "D20"}
+    rule = ("requests generated from each command's grammar (all option subsets and orders, keyword case variants, boundary and malformed "
+            "numbers, missing/extra arguments, values that spell keywords) for all 98 dispatched names, over the shared small universes, driven "
+            "through the real handler chain in process with a recording redcon.Conn; each line is judged by the Lean wire model, whose command "
+            "table runs the generated grammars and maps every command to the model of its documented API call (typed reply tokens and full table "
+            "dump compared); a case is one request, distinct by (request, pre-state), non-trivial when the reply is not an error")
+
+    def judge(self, op, v, mode):
+        if v.get("M") == "0":
+            return ("violation", "the reply or the resulting tables differ from the typed encoding of the documented API call on the same data (wire model)")
+        return None
+
+
+class C14(WireCfg):
+    lean = WireCfg.lean + ["Props.C14", "Audit.C14", "Props.C17", "Audit.C17"]
+    audit = ["C14", "C17"]
+    wire_streams = [("malformed", 6, 60, 100), ("pool", 6, 20, 200), ("multi", 4, 60, 100)]
+    listed = {"D11", "D12"}
+    rule = ("every supported and unsupported command name x argument vectors of length 0..3 over a pool of hostile tokens (exhaustive for short vectors), "
+            "random malformed vectors, the same inside MULTI/EXEC; the token sequence written for each request must be exactly one complete RESP value "
+            "and the handler must not panic (a panic kills the real server); the connection state after the request must be the model's")
+
+    def judge(self, op, v, mode):
+        w = v.get("_wire")
+        if w:
+            values, incomplete, panicked = reply_shape(w["toks"])
+            known = wire_known(w)
+            if panicked and "D11" not in known:
+                return ("violation", "the handler panicked (the real server would go down)")
+            if not panicked and (values != 1 or incomplete):
+                short_exec = (w["args"] and w["args"][0].lower() == b"exec" and w["inMulti"]
+                              and w["toks"] and w["toks"][0].startswith("*"))
+                if not short_exec:
+                    return ("violation", f"the request was answered with {values} complete replies" + (" and an incomplete one" if incomplete else ""))
+        if v.get("M") == "0":
+            return ("violation", "reply or connection state differs from the wire model")
+        return None
+
+
+class C15(WireCfg):
+    lean = WireCfg.lean + ["Props.C15", "Audit.C15", "Props.C07", "Audit.C07"]
+    audit = ["C15", "C07"]
+    wire_streams = [("multiseq:", 16, 1051, 5), ("multiseq:-conns 2", 16, 172, 3), ("multi", 4, 60, 100)]
+    listed = {"D12"}
+    rule = ("all 7^5 sequences over {MULTI, EXEC, DISCARD, succeeding write, write failing at run time, unparsable command, read} on one connection "
+            "(exhaustive) and random MULTI blocks on one and two interleaved connections; judged by the Lean transcription of the handler chain and, "
+            "independently, by a reference state machine (queued commands change nothing; EXEC announces the queue length; a failing queued command "
+            "leaves the tables unchanged; EXEC/DISCARD without MULTI and nested MULTI are refused without disturbing the connection)")
+
+    def streams(self, tier, seed, search):
+        out = WireCfg.streams(self, tier, seed, search)
+        # two connections, every interleaving of a block on A with ordinary traffic on B, after both
+        # connections have already been used
+        import itertools
+        a_seqs = [["SET a0 1", "MULTI", "SET a1 1", "INCR cnt", "EXEC", "GET a1"],
+                  ["GET k", "MULTI", "RPUSH l x", "SET a2 2", "DISCARD", "MULTI", "SET a3 3", "EXEC"],
+                  ["PING", "MULTI", "INCR cnt", "INCR cnt", "EXEC"]]
+        b_seqs = [["SET b0 1", "GET cnt", "INCR cnt"], ["PING", "MULTI", "SET b1 1", "EXEC"], ["GET a1", "RPUSH l y"]]
+        script = ""
+        for A in a_seqs:
+            for B in b_seqs:
+                n, m = len(A), len(B)
+                for pos in itertools.combinations(range(n + m), m):
+                    ai = bi = 0
+                    script += "---\n"
+                    for i in range(n + m):
+                        if i in pos:
+                            script += "2 " + B[bi] + "\n"
+                            bi += 1
+                        else:
+                            script += "1 " + A[ai] + "\n"
+                            ai += 1
+        out.append(dict(kind="wirescript", driver="wiredriver", script=script))
+        return out
+
+    def judge(self, op, v, mode):
+        w = v.get("_wire")
+        if w:
+            # continuity: nobody but the connection itself may change its MULTI state; the state
+            # read before a request must be the state left by that connection's previous request
+            tr = v.get("_trace")
+            key = (tr, w["conn"])
+            last = self.__dict__.setdefault("_last", {})
+            pre_state = [w["conn"], "1" if w["inMulti"] else "0"] + w["queue"]
+            if key in last and last[key] != pre_state:
+                return ("violation", "the connection's MULTI state changed between two of its own requests (another connection's traffic reached it)")
+            last[key] = w["post_state"]
+        if w and w["args"]:
+            name = w["args"][0].lower()
+            toks = w["toks"]
+            same = w["pre"] == w["post"]
+            if w["inMulti"]:
+                if name == b"exec":
+                    values, incomplete, panicked = reply_shape(toks)
+                    if toks and toks[0] != f"*{w['nq']}":
+                        return ("violation", "EXEC did not announce one reply per queued command")
+                    if incomplete and not same:
+                        return ("violation", "a queued command failed during EXEC but some of the block's effects were kept")
+                    if w["post_state"][1:3] != ["0", "0"]:
+                        return ("violation", "the connection is still in MULTI state after EXEC")
+                elif name == b"discard":
+                    if not same or w["post_state"][1:3] != ["0", "0"]:
+                        return ("violation", "DISCARD changed the tables or did not leave MULTI state")
+                elif name == b"multi":
+                    if not same or not (toks and toks[0].startswith("-")) or w["post_state"][1] != "1":
+                        return ("violation", "nested MULTI was not refused without disturbing the connection")
+                else:
+                    if not same:
+                        return ("violation", "a command queued inside MULTI took effect before EXEC")
+            else:
+                if name in (b"exec", b"discard") and (not same or not (toks and toks[0].startswith("-"))):
+                    return ("violation", "EXEC/DISCARD without MULTI was not refused cleanly")
+        if v.get("M") == "0":
+            return ("violation", "replies, tables or connection state differ from the transcription of the handler chain")
         return None
 
 
@@ -646,7 +932,7 @@ class C18(Cfg):
                 if (i + part) % step:
                     continue
                 s += f"key.Keys {hx(pt)}\n"
-                if i % 7 == part % 7:
+                if search or tier == "thorough" or i % 7 == part % 7:
                     s += f"set.Scan {hx('S')} 0 {hx(pt)} -1\nhash.Scan {hx('H')} 0 {hx(pt)} -1\nzset.Scan {hx('Z')} 0 {hx(pt)} -1\nkey.Scan 0 {hx(pt)} 0 -1\n"
             out.append(dict(kind="script", script=s))
         return out
@@ -660,6 +946,8 @@ class C18(Cfg):
         if v.get("S") == "0" and not (set(v["K"]) & self.listed):
             return ("violation", "the names selected differ from the reference glob matcher inside the domain where C18 fixes the meaning")
         if v.get("M") == "0" and "out" in v["D"]:
+            if op != "key.Keys":
+                return ("violation", "this scan site selects different names than the common glob matcher (the transcription of SQLite GLOB validated at the other sites)")
             return ("corr", "SQLite's GLOB and its Lean transcription select different names")
         return None
 
@@ -677,6 +965,9 @@ PROPS = {
     "C10": C10(),
     "C11": C11(),
     "C12": C12(),
+    "C13": C13(),
+    "C14": C14(),
+    "C15": C15(),
     "C16": C16(),
     "C17": C17(),
     "C18": C18(),
